@@ -36,7 +36,7 @@ SPEC = {
              "non-trivial = at least 2 unknowns"),
     "boundscheck": {"quick": False, "thorough": False},
     "case_timeout": 240.0,
-    "deciding_monitors": ["update:GradientMethod", "update:PrimalDualHybridGradient"],
+    "deciding_monitors": ["update:GradientMethod", "update:PrimalDualHybridGradient", "in:layout:strided"],
     "assumptions": ["reference minimisers certified to 1e-10 (prox-gradient residual)",
                     "PDHG distance in the shifted-pair M-norm (DESIGN.md C13)"],
 }
